@@ -5,8 +5,10 @@ C13, second half (compact protocol), level 5: the main induction.
 
   * `conf_pos`       every conformant encoding is non-empty (the fuel bound is length-based)
   * `decodeList_chunks`, `decodeSet_chunks`, `decodeMap_chunks`   the collection loops over arbitrary element encodings
-  * `accept_norm`    `tyOK ty → valOK ty v → RTS ty v → Conf ty v bs → |bs| + depth ty ≤ fuel →
-                        decode .compact strict fuel ty (bs ++ rest) (zeroOf ty) = ok (norm ty v, rest)`
+  * `accept_norm`    `d + nest ty ≤ maxDepth → tyOK ty → valOK ty v → RTS ty v → Conf ty v bs → |bs| + depth ty ≤ fuel →
+                        decode .compact strict d fuel ty (bs ++ rest) (zeroOf ty) = ok (norm ty v, rest)`
+                     (`d` = the decoder's nesting counter; a container entered at depth ≥ maxDepth is rejected since
+                     the fix 9c8d6b4, hence the hypothesis, as in `decode_norm`)
 -/
 namespace Enc.Lemmas.ThriftAccept
 open Enc Enc.Model.Thrift Enc.Lemmas.ThriftPrim Enc.Lemmas.ThriftSkip Enc.Lemmas.ThriftSpec
@@ -78,15 +80,15 @@ theorem conf_pos : (ty : Ty) → (v : Val) → (bs : Bytes) → Conf ty v bs →
 
 /-! ### collection loops over arbitrary element encodings -/
 
-/-- `c` is a non-empty chunk that `decode` (target: zero value) reads back as `w` with `|c| + D` fuel -/
-def GoodChunk (strict : Bool) (et : Ty) (D : Nat) (w : Val) (c : Bytes) : Prop :=
+/-- `c` is a non-empty chunk that `decode` (target: zero value, depth `d`) reads back as `w` with `|c| + D` fuel -/
+def GoodChunk (strict : Bool) (d : Nat) (et : Ty) (D : Nat) (w : Val) (c : Bytes) : Prop :=
   1 ≤ c.length ∧ ∀ fuel rest, c.length + D ≤ fuel →
-    decode .compact strict fuel et (c ++ rest) (zeroOf et) = .ok (w, rest)
+    decode .compact strict d fuel et (c ++ rest) (zeroOf et) = .ok (w, rest)
 
-theorem decodeList_chunks (strict : Bool) (et : Ty) (nrm : Val → Val) (D : Nat) :
-    ∀ {l : List Val} {chunks : List Bytes}, All2 (fun a c => GoodChunk strict et D (nrm a) c) l chunks →
+theorem decodeList_chunks (strict : Bool) (d : Nat) (et : Ty) (nrm : Val → Val) (D : Nat) :
+    ∀ {l : List Val} {chunks : List Bytes}, All2 (fun a c => GoodChunk strict d et D (nrm a) c) l chunks →
       ∀ fuel rest acc, chunks.flatten.length + 1 + D ≤ fuel →
-        decodeList .compact strict fuel et l.length (chunks.flatten ++ rest) acc
+        decodeList .compact strict d fuel et l.length (chunks.flatten ++ rest) acc
           = .ok (.list (Vals.ofList (acc.reverse ++ l.map nrm)), rest) := by
   intro l chunks h
   induction h with
@@ -105,12 +107,12 @@ theorem decodeList_chunks (strict : Bool) (et : Ty) (nrm : Val → Val) (D : Nat
     rw [ih f rest (nrm a :: acc) (by omega)]
     simp
 
-theorem decodeSet_chunks (strict : Bool) (kt : Ty) (nk : Val → Val) (D : Nat) :
+theorem decodeSet_chunks (strict : Bool) (d : Nat) (kt : Ty) (nk : Val → Val) (D : Nat) :
     ∀ {l : List (Val × Val)} {chunks : List Bytes},
-      All2 (fun a c => GoodChunk strict kt D (nk a.1) c) l chunks → ∀ (qs : List (Val × Val)),
+      All2 (fun a c => GoodChunk strict d kt D (nk a.1) c) l chunks → ∀ (qs : List (Val × Val)),
       (qs.map (·.1.show) ++ l.map fun a => (nk a.1).show).Nodup →
       ∀ fuel rest, chunks.flatten.length + 1 + D ≤ fuel →
-        decodeSet .compact strict fuel kt l.length (chunks.flatten ++ rest) (flat qs)
+        decodeSet .compact strict d fuel kt l.length (chunks.flatten ++ rest) (flat qs)
           = .ok (.map (flat (qs ++ l.map fun a => (nk a.1, .struct .nil))), rest) := by
   intro l chunks h
   induction h with
@@ -135,13 +137,13 @@ theorem decodeSet_chunks (strict : Bool) (kt : Ty) (nk : Val → Val) (D : Nat) 
       (by simpa [List.map_append, List.append_assoc] using hnd) f rest (by omega)]
     simp [List.append_assoc]
 
-theorem decodeMap_chunks (strict : Bool) (kt vt : Ty) (nk nv : Val → Val) (D : Nat) :
+theorem decodeMap_chunks (strict : Bool) (d : Nat) (kt vt : Ty) (nk nv : Val → Val) (D : Nat) :
     ∀ {l : List (Val × Val)} {chunks : List Bytes},
-      All2 (fun a c => ∃ ck cv, GoodChunk strict kt D (nk a.1) ck ∧ GoodChunk strict vt D (nv a.2) cv ∧
+      All2 (fun a c => ∃ ck cv, GoodChunk strict d kt D (nk a.1) ck ∧ GoodChunk strict d vt D (nv a.2) cv ∧
         c = ck ++ cv) l chunks → ∀ (qs : List (Val × Val)),
       (qs.map (·.1.show) ++ l.map fun a => (nk a.1).show).Nodup →
       ∀ fuel rest, chunks.flatten.length + 1 + D ≤ fuel →
-        decodeMap .compact strict fuel kt vt l.length (chunks.flatten ++ rest) (flat qs)
+        decodeMap .compact strict d fuel kt vt l.length (chunks.flatten ++ rest) (flat qs)
           = .ok (.map (flat (qs ++ l.map fun a => (nk a.1, nv a.2))), rest) := by
   intro l chunks h
   induction h with
@@ -188,9 +190,12 @@ theorem twos_eq (i : Int) (b : Nat) : Spec.Thrift.twos i b = Model.Thrift.twos i
 mutual
 /-- **Acceptance of every conformant encoding**, compact protocol, decoder strict or not, on `ok ∩ RTS`: the decoder,
 started on the zero value, consumes exactly `bs` and yields the normal form `norm ty v` — the SAME value as for the
-canonical encoding (`decode_norm`). Fuel: input length + type depth. -/
-theorem accept_norm (strict : Bool) : (ty : Ty) → (v : Val) → Accepts strict ty v
+canonical encoding (`decode_norm`) —, at any nesting depth `d` that leaves room for the containers of the type.
+Fuel: input length + type depth. -/
+theorem accept_norm (strict : Bool) : (ty : Ty) → (v : Val) →
+    ∀ (d : Nat), d + nest ty ≤ Gen.c_thrift_maxDepth → Accepts strict d ty v
   | .bool, v => by
+    intro d hd
     unfold Accepts
     intro _ _ hR bs hc fuel rest hf
     simp only [Conf] at hc
@@ -199,6 +204,7 @@ theorem accept_norm (strict : Bool) : (ty : Ty) → (v : Val) → Accepts strict
     obtain ⟨f, rfl⟩ : ∃ f, fuel = f + 1 := ⟨fuel - 1, by omega⟩
     cases b <;> simp [decode, rBool, rByte, Res.bind, norm]
   | .int k, v => by
+    intro d hd
     unfold Accepts
     intro _ _ hR bs hc fuel rest hf
     simp only [Conf] at hc
@@ -219,9 +225,11 @@ theorem accept_norm (strict : Bool) : (ty : Ty) → (v : Val) → Accepts strict
     · rw [rI32_UV i ⟨by omega, by omega⟩ hc rest]; rfl
     · rw [rI64_UV i ⟨by omega, by omega⟩ hc rest]; rfl
   | .f32, _ | .f64, _ | .any, _ | .arr _ _, _ => by
+    intro d hd
     unfold Accepts
     intro ht; simp [tyOK] at ht
   | .str, v => by
+    intro d hd
     unfold Accepts
     intro _ _ hR bs hc fuel rest hf
     simp only [Conf] at hc
@@ -231,6 +239,7 @@ theorem accept_norm (strict : Bool) : (ty : Ty) → (v : Val) → Accepts strict
     obtain ⟨f, rfl⟩ : ∃ f, fuel = f + 1 := ⟨fuel - 1, by omega⟩
     simp only [decode, rBytes_BytesC s hR hc, Res.bind, norm]
   | .bytes, v => by
+    intro d hd
     unfold Accepts
     intro _ _ hR bs hc fuel rest hf
     simp only [Conf] at hc
@@ -241,10 +250,12 @@ theorem accept_norm (strict : Bool) : (ty : Ty) → (v : Val) → Accepts strict
     · simp only [decode, rBytes_BytesC _ hR hc, Res.bind, norm]
     · simp only [decode, rBytes_BytesC [] (by simp) hc, Res.bind, norm]
   | .slice t, v => by
+    intro d hd
     unfold Accepts
     intro ht hx hR bs hc fuel rest hf
     rw [RTS_slice] at hR
     rw [depth_slice] at hf
+    rw [nest_slice] at hd
     obtain ⟨f, rfl⟩ : ∃ f, fuel = f + 1 := ⟨fuel - 1, by omega⟩
     rw [decode_slice, norm_slice]
     simp only [Conf] at hc
@@ -253,7 +264,8 @@ theorem accept_norm (strict : Bool) : (ty : Ty) → (v : Val) → Accepts strict
       cases v <;> simp [bytesOK] at hR <;> simp only [payload] at hc
       · simp only [rBytes_BytesC _ hR hc, Res.bind]
       · simp only [rBytes_BytesC [] (by simp) hc, Res.bind]
-    · simp only [hu, Bool.false_eq_true, if_false, Bool.and_eq_true] at hR hc ⊢
+    · simp only [hu, Bool.false_eq_true, if_false, Bool.and_eq_true] at hR hc hd ⊢
+      have htd : tooDeep d = false := tooDeep_false d (by omega)
       have hu' : isU8 t = false := by simpa using hu
       have htt : tyOK t = true := by simpa [tyOK, hu'] using ht
       obtain ⟨hreal, hR⟩ := hR
@@ -267,18 +279,20 @@ theorem accept_norm (strict : Bool) : (ty : Ty) → (v : Val) → Accepts strict
         · simp only [Bool.and_eq_true, decide_eq_true_eq] at hR
           rw [length_toList] at hR
           exact ⟨hR.1, all_toList _ _ hR.2⟩
-      have hgood : All2 (fun a c => GoodChunk strict t (depth t) (norm t a) c) (elems v) chunks :=
+      have hgood : All2 (fun a c => GoodChunk strict (d + 1) t (depth t) (norm t a) c) (elems v) chunks :=
         hall2.imp_mem fun a ha c hac =>
-          ⟨conf_pos t a c hac, fun fuel rest hfa => accept_norm strict t a htt (hvx a ha) (hlen.2 a ha) c hac fuel rest hfa⟩
+          ⟨conf_pos t a c hac, fun fuel rest hfa =>
+            accept_norm strict t a (d + 1) (by omega) htt (hvx a ha) (hlen.2 a ha) c hac fuel rest hfa⟩
       simp only [List.length_append] at hf
       have hh1 := ListHdr_length_pos hh
       obtain ⟨t', hrd, ht'⟩ := rList_ListHdr _ _ hlen.1 hh (chunks.flatten ++ rest)
       rw [← typeOf_eq t htt] at ht'
       rw [List.append_assoc, hrd]
-      simp only [Res.bind, ht', bne_self_eq_false, Bool.false_eq_true, if_false]
-      rw [decodeList_chunks strict t (norm t) (depth t) hgood f rest [] (by omega)]
+      simp only [Res.bind, ht', bne_self_eq_false, Bool.false_eq_true, if_false, htd]
+      rw [decodeList_chunks strict (d + 1) t (norm t) (depth t) hgood f rest [] (by omega)]
       cases v <;> simp [elems, Vals.ofList]
   | .map k v, x => by
+    intro d hd
     unfold Accepts
     intro ht hx hR bs hc fuel rest hf
     rw [RTS_map] at hR
@@ -288,18 +302,21 @@ theorem accept_norm (strict : Bool) : (ty : Ty) → (v : Val) → Accepts strict
     simp only [tyOK, Bool.and_eq_true] at ht
     have hvx := valOK_map_pairs k v x hx
     simp only [depth] at hf
+    simp only [nest] at hd
+    have htd : tooDeep d = false := tooDeep_false d (by omega)
+    have hnk : d + 1 + nest k ≤ Gen.c_thrift_maxDepth := by split at hd <;> omega
     obtain ⟨f, rfl⟩ : ∃ f, fuel = f + 1 := ⟨fuel - 1, by omega⟩
     rw [decode_map, norm_map]
     simp only [Conf, ← isEmptyStruct_eq, ← pairsOfVal_eq] at hc
     generalize pairsOfVal x = ps at *
     have hntk : (typeOf k == TType.true_) = false := by simpa using typeOf_ne_true k
     have hkgood : ∀ a ∈ ps, ∀ c, Conf k a.1 c →
-        GoodChunk strict k (max (depth k) (depth v)) (norm k a.1) c := by
+        GoodChunk strict (d + 1) k (max (depth k) (depth v)) (norm k a.1) c := by
       intro a ha c hac
       have := hall' a ha
       simp only [Bool.and_eq_true] at this
       exact ⟨conf_pos k a.1 c hac, fun fuel rest hfa =>
-        accept_norm strict k a.1 ht.1 (hvx a ha).1 this.1 c hac fuel rest
+        accept_norm strict k a.1 (d + 1) hnk ht.1 (hvx a ha).1 this.1 c hac fuel rest
           (by have := Nat.le_max_left (depth k) (depth v); omega)⟩
     by_cases he : isEmptyStruct v = true
     · simp only [he, if_true] at hc ⊢
@@ -309,7 +326,7 @@ theorem accept_norm (strict : Bool) : (ty : Ty) → (v : Val) → Accepts strict
       obtain ⟨t', hrd, ht'⟩ := rList_ListHdr _ _ hlen hh (chunks.flatten ++ rest)
       rw [← typeOf_eq k ht.1] at ht'
       rw [List.append_assoc, hrd]
-      simp only [Res.bind, ht', bne_self_eq_false, Bool.false_eq_true, if_false]
+      simp only [Res.bind, ht', bne_self_eq_false, Bool.false_eq_true, if_false, htd]
       cases ps with
       | nil =>
         rw [hall2.nil_left]
@@ -317,13 +334,13 @@ theorem accept_norm (strict : Bool) : (ty : Ty) → (v : Val) → Accepts strict
       | cons a l =>
         have hn0 : ((a :: l).length == 0) = false := by simp
         simp only [hn0, Bool.false_eq_true, if_false]
-        have hgood : All2 (fun a c => GoodChunk strict k (max (depth k) (depth v)) (norm k a.1) c) (a :: l) chunks :=
+        have hgood : All2 (fun a c => GoodChunk strict (d + 1) k (max (depth k) (depth v)) (norm k a.1) c) (a :: l) chunks :=
           hall2.imp_mem hkgood
-        have := decodeSet_chunks strict k (norm k) (max (depth k) (depth v)) hgood []
+        have := decodeSet_chunks strict (d + 1) k (norm k) (max (depth k) (depth v)) hgood []
           (by simpa using hnd) f rest (by omega)
         rw [flat_nil] at this
         rw [this]; simp
-    · simp only [he, Bool.false_eq_true, if_false] at hc ⊢
+    · simp only [he, Bool.false_eq_true, if_false] at hc hd ⊢
       obtain ⟨hdr, chunks, hh, hall2, rfl⟩ := hc
       have hh1 := MapHdr_length_pos hh
       simp only [List.length_append] at hf
@@ -338,22 +355,23 @@ theorem accept_norm (strict : Bool) : (ty : Ty) → (v : Val) → Accepts strict
       | cons a l =>
         have hne : (a :: l).length ≠ 0 := by simp
         have hn0 : ((a :: l).length == 0) = false := by simp
-        simp only [hn0, Bool.false_eq_true, if_false, (hkv hne).1, (hkv hne).2, bne_self_eq_false]
-        have hgood : All2 (fun a c => ∃ ck cv, GoodChunk strict k (max (depth k) (depth v)) (norm k a.1) ck ∧
-            GoodChunk strict v (max (depth k) (depth v)) (norm v a.2) cv ∧ c = ck ++ cv) (a :: l) chunks :=
+        simp only [hn0, Bool.false_eq_true, if_false, (hkv hne).1, (hkv hne).2, bne_self_eq_false, htd]
+        have hgood : All2 (fun a c => ∃ ck cv, GoodChunk strict (d + 1) k (max (depth k) (depth v)) (norm k a.1) ck ∧
+            GoodChunk strict (d + 1) v (max (depth k) (depth v)) (norm v a.2) cv ∧ c = ck ++ cv) (a :: l) chunks :=
           hall2.imp_mem fun b hb c hbc => by
             obtain ⟨ck, cv, h1, h2, h3⟩ := hbc
             have := hall' b hb
             simp only [Bool.and_eq_true, he, Bool.false_or] at this
             exact ⟨ck, cv, hkgood b hb ck h1,
               ⟨conf_pos v b.2 cv h2, fun fuel rest hfa =>
-                accept_norm strict v b.2 ht.2 (hvx b hb).2 this.2 cv h2 fuel rest
+                accept_norm strict v b.2 (d + 1) (by omega) ht.2 (hvx b hb).2 this.2 cv h2 fuel rest
                   (by have := Nat.le_max_right (depth k) (depth v); omega)⟩, h3⟩
-        have := decodeMap_chunks strict k v (norm k) (norm v) (max (depth k) (depth v)) hgood []
+        have := decodeMap_chunks strict (d + 1) k v (norm k) (norm v) (max (depth k) (depth v)) hgood []
           (by simpa using hnd) f rest (by omega)
         rw [flat_nil] at this
         rw [this]; simp
   | .struct fs, v => by
+    intro d hd
     unfold Accepts
     intro ht hx hR bs hc fuel rest hf
     simp only [RTS, Bool.and_eq_true] at hR
@@ -364,25 +382,29 @@ theorem accept_norm (strict : Bool) : (ty : Ty) → (v : Val) → Accepts strict
     simp only [valOK] at hx
     simp only [tyOK, Bool.and_eq_true] at ht
     rw [depth_struct] at hf
+    simp only [nest] at hd
+    have htd : tooDeep d = false := tooDeep_false d (by omega)
     have hs1 := Stream_length_pos hs
     obtain ⟨f, rfl⟩ : ∃ f, fuel = f + 1 := ⟨fuel - 1, by omega⟩
-    obtain ⟨seen, hdec, hreq⟩ := struct_accept strict fs vs ht.1.1 hx hids hR (fields_accept strict fs vs)
-      rs order bs hcf hperm hs f rest (by omega)
-    simp only [decode, zeroOf, hdec, Res.bind, hreq, norm]
-    simp
+    obtain ⟨seen, hdec, hreq⟩ := struct_accept strict (d + 1) fs vs ht.1.1 hx hids hR
+      (fields_accept strict fs vs (d + 1) (by omega)) rs order bs hcf hperm hs f rest (by omega)
+    simp only [decode, htd, Bool.false_eq_true, if_false, zeroOf, hdec, Res.bind, hreq, norm]
   | .ptr t, v => by
+    intro d hd
     unfold Accepts
     intro ht hx hR bs hc fuel rest hf
     simp only [RTS] at hR
     simp only [tyOK] at ht
     simp only [depth] at hf
+    simp only [nest] at hd
     obtain ⟨f, rfl⟩ : ∃ f, fuel = f + 1 := ⟨fuel - 1, by omega⟩
     simp only [Conf, ← zeroOf_eq] at hc
     cases v <;> simp only [ptrOK, Bool.false_eq_true] at hR <;> simp only [valOK] at hx <;>
       simp only at hc <;> simp only [decode, zeroOf, norm]
-    · rw [accept_norm strict t _ ht (valOK_zeroOf t ht) hR bs hc f rest (by omega)]; rfl
-    · rw [accept_norm strict t _ ht hx hR bs hc f rest (by omega)]; rfl
+    · rw [accept_norm strict t _ d hd ht (valOK_zeroOf t ht) hR bs hc f rest (by omega)]; rfl
+    · rw [accept_norm strict t _ d hd ht hx hR bs hc f rest (by omega)]; rfl
   | .named _ t, v => by
+    intro d hd
     unfold Accepts
     intro ht hx hR bs hc fuel rest hf
     simp only [RTS] at hR
@@ -390,13 +412,18 @@ theorem accept_norm (strict : Bool) : (ty : Ty) → (v : Val) → Accepts strict
     simp only [valOK] at hx
     simp only [Conf] at hc
     simp only [depth] at hf
+    simp only [nest] at hd
     obtain ⟨f, rfl⟩ : ∃ f, fuel = f + 1 := ⟨fuel - 1, by omega⟩
     simp only [decode, zeroOf, norm]
-    exact accept_norm strict t v ht hx hR bs hc f rest (by omega)
-theorem fields_accept (strict : Bool) : (fs : Fields) → (vs : Vals) → AllAccept strict fs vs
+    exact accept_norm strict t v d hd ht hx hR bs hc f rest (by omega)
+theorem fields_accept (strict : Bool) : (fs : Fields) → (vs : Vals) →
+    ∀ (d : Nat), d + nestFields fs ≤ Gen.c_thrift_maxDepth → AllAccept strict d fs vs
   | .nil, _ => by simp [AllAccept]
   | .cons _ _ _ _ _, .nil => by simp [AllAccept]
-  | .cons _ _ _ t rest, .cons x vs => ⟨accept_norm strict t x, fields_accept strict rest vs⟩
+  | .cons _ _ _ t rest, .cons x vs => by
+    intro d hd
+    simp only [nestFields] at hd
+    exact ⟨accept_norm strict t x d (by omega), fields_accept strict rest vs d (by omega)⟩
 end
 
 end Enc.Lemmas.ThriftAccept
